@@ -373,6 +373,12 @@ func (c *Channel) acceptUpdate(
 	// the interceptor and a matching update would block the parent forever.
 	if c.IsSubChannel() && req.Base().State.IsFinal && c.Idx() == ProposeeIdx {
 		c.Parent().registerSubChannelSettlement(c.ID(), req.Base().State.Balances)
+		// If the update is discarded, nobody is going to await the settlement.
+		defer func() {
+			if err != nil {
+				c.Parent().subChannelWithdrawals.Release(c.ID())
+			}
+		}()
 	}
 
 	msgUpAcc := &ChannelUpdateAccMsg{
